@@ -428,6 +428,23 @@ fn three_points(p0: &P2, p1: &P2, p2: &P2, kind: u8) -> Verdict {
 fn ransac_extremes(c: &P2, r: f64, exact: &[f64], noisy: &[(f64, f64)], rho: f64, out_frac: f64, out_angles: &[f64]) -> Verdict {
     let mut cx = Ctx::new();
     cx.label("ransac_outward_inliers_at_extremes");
+    // as in the plain RANSAC family: the exact samples must span at least 60 degrees and must not be a few positions
+    // repeated (shrinking and byte-level mutation collapse them to one angle), or no triple of them defines the circle well
+    {
+        let mut a: Vec<f64> = exact.iter().map(|t| t.rem_euclid(std::f64::consts::TAU)).collect();
+        a.sort_by(|x, y| x.partial_cmp(y).unwrap());
+        let mut distinct = 1;
+        let mut largest_gap = a[0] + std::f64::consts::TAU - a[a.len() - 1];
+        for w in a.windows(2) {
+            if w[1] - w[0] > 0.02 {
+                distinct += 1;
+            }
+            largest_gap = largest_gap.max(w[1] - w[0]);
+        }
+        if 2 * distinct < a.len() || std::f64::consts::TAU - largest_gap < PI / 3.0 {
+            return Verdict::Discard("exact samples collapsed to a few positions or spanning less than 60 degrees");
+        }
+    }
     let c0 = pt2(c);
     let tol = 1e-3 * r;
     let mut pts: Vec<Point2> = exact.iter().map(|t| c0 + engeom::Vector2::new(t.cos(), t.sin()) * r).collect();
